@@ -51,6 +51,30 @@ type replayFile struct {
 	LogHash   string          `json:"log_hash"`
 	RepoTree  string          `json:"repo_tree"`
 	Gen       json.RawMessage `json:"gen,omitempty"`
+	Explore   *exploreReplay  `json:"explore,omitempty"`
+}
+
+// exploreReplay: the violation needs the sequence of plans of one runner process (state in
+// the generated code survives between plans); replay = the same exploration again.
+type exploreReplay struct {
+	Mode      string `json:"mode"`
+	Checks    int    `json:"checks"`
+	RapidSeed uint64 `json:"rapid_seed"`
+}
+
+func addExploreToReplay(path, mode string, checks int, rseed uint64) error {
+	b, err := os.ReadFile(path)
+	if err != nil {
+		return err
+	}
+	var m map[string]any
+	if err := json.Unmarshal(b, &m); err != nil {
+		return err
+	}
+	m["explore"] = exploreReplay{Mode: mode, Checks: checks, RapidSeed: rseed}
+	m["detail"] = fmt.Sprint(m["detail"]) + " [needs the preceding plans of the same runner process: replayed as the whole seeded exploration]"
+	out, _ := json.MarshalIndent(m, "", " ")
+	return os.WriteFile(path, out, 0o644)
 }
 
 func loadReplay(path string) (*replayFile, *spec.World, error) {
@@ -282,6 +306,27 @@ func runCheck(id, tier string, seed int64) int {
 					for _, rv := range rj.res.Violations {
 						if rv.Signature == v.Signature {
 							confirmed = true
+						}
+					}
+				}
+				if !confirmed {
+					// The minimised plan alone does not fail in a fresh process: the violation depends
+					// on process state left by earlier plans of the same runner (e.g. a pool or cache
+					// in the generated code). The exploration itself is a pure function of (world,
+					// mode, rapid seed, checks): re-run it in a fresh process; if it reports the same
+					// violation, the replay file records the exploration instead of a single plan.
+					ej := &job{world: j.world, mode: j.mode, checks: j.checks, rseed: j.rseed, out: filepath.Join(scratch, "eres.json")}
+					runJob(b, id, ej, knownSigs, extra, timeout)
+					if ej.res != nil {
+						for _, rv := range ej.res.Violations {
+							if rv.Signature == v.Signature {
+								confirmed = true
+							}
+						}
+					}
+					if confirmed {
+						if err := addExploreToReplay(path, j.mode, j.checks, j.rseed); err != nil {
+							return fail2("%v", err)
 						}
 					}
 				}
